@@ -183,9 +183,22 @@ def exec_level(r):
             v2 = Gn.vector(dna.dec(res["up"]).upper(), dna.dec(res["down"]).upper(), gen.rnd(3, rng, Gn.safe), gen.rnd(5, rng, Gn.safe), rng)
             if v2 and dna.dec(res["up"]).upper() != dna.dec(res["down"]).upper():
                 gv = classes.build({"generic": "vector", "enz": r["nenz"]})
-                out2 = call_assemble(gv, [ncls], mk_record({"id": "v2", "seq": v2}), [prod], "second", "second")
+                v2rec = mk_record({"id": "v2", "seq": v2})
+                from ..asm_drv import rec_proj, snapshot
+                pin = [rec_proj(v2rec), rec_proj(prod)]
+                before = [snapshot(v2rec), snapshot(prod)]
+                out2 = call_assemble(gv, [ncls], v2rec, [prod], "second", "second")
                 out2.pop("_product", None)
                 ev["second"] = {"has": True, "out": out2}
+                # the same call as a full assembly event: the product object itself (not a copy rebuilt from its description) is the
+                # module, so its provenance features are what the library put there
+                s2, o2, k2 = enzmod.geometry(ncls.cutter)
+                extra = {"ev": "Assemble", "enz": {"site": dna.enc(s2), "off": o2, "ovh": k2}, "vrole": "vector", "generic": True,
+                         "vec": pin[0], "mods": pin[1:], "args": {"id": "second", "name": "second"}, "out": out2, "fault": {"at": 0, "exc": ""},
+                         "before": before, "after": [snapshot(v2rec), snapshot(prod)],
+                         "rep": {"has": False, "out": {}, "after": []}, "twin": {"by": "none", "out": {}},
+                         "origins": [{"id": x["id"], "seq": x["seq"]} for x in [asm["vec"]] + asm["mods"]]}
+                return evs[:1] + [ev, extra]
     return evs[:1] + [ev]
 
 
@@ -209,7 +222,7 @@ def two_level(run, provenance=False):
                 origins.extend({"id": x["id"], "seq": x["seq"]} for x in [tr[0]["vec"]] + tr[0]["mods"])
                 traces.append(tr)
                 recipes.append(r)
-                nx = tr[-1]["next"]["res"]
+                nx = tr[1]["next"]["res"]
                 if tr[0]["out"]["kind"] != "product" or not nx["valid"]:
                     break
                 # the product, with its features (inner provenance included), becomes the module of the next level
@@ -254,9 +267,9 @@ def run(tier, seed):
     for r, t in zip(recipes, traces):
         run.distinct.add((r["triple"][1], r["vector"]["seq"], tuple(m["seq"] for m in r["modules"])))
     run.extra["per_triple"] = {t[1]: sum(1 for r in recipes if r["triple"][1] == t[1]) for t in TRIPLES}
-    run.extra["accepted_by_next_level"] = sum(1 for t in traces if t[-1]["next"]["res"]["valid"])
-    run.extra["second_level_assemblies"] = sum(1 for t in traces if t[-1]["second"]["has"])
-    run.add_sample({"recipe": recipes[0], "next": traces[0][-1]["next"]["res"]})
+    run.extra["accepted_by_next_level"] = sum(1 for t in traces if t[1]["next"]["res"]["valid"])
+    run.extra["second_level_assemblies"] = sum(1 for t in traces if t[1]["second"]["has"])
+    run.add_sample({"recipe": recipes[0], "next": traces[0][1]["next"]["res"]})
     run.validate("levels", "Trace_Assembly", traces, recipes, sigfn=sig, describe=describe)
     two_level(run)
     return run.finish("TLC: ProductIsNextModule on a small world with two miniature enzymes and the kit vector shape, all rotations; I->S: "
